@@ -2,6 +2,7 @@
 From Coq Require Import ZArith List.
 From Clip Require Import base.Geom base.Winding base.Region base.Dist base.CSem model.RegionCheck.
 From Clip Require Import gen.Gen_core gen.Gen_engine model.Sweep1D proofs.Sweep1D_main proofs.Sweep1D_gen.
+From Clip Require model.Rings proofs.Rings.
 Import ListNotations.
 Local Open Scope Z_scope.
 
@@ -73,3 +74,42 @@ Example C01_nonvacuous :
   wf_trace Intersection NonZero [] evs = true /\
   exists a, run Intersection NonZero [] evs = Some a /\ inv_b Intersection NonZero a = true /\ length a = 2%nat.
 Proof. exact inv_nonvacuous. Qed.
+
+(* ------------------------------------------------------------------------------------------------------------
+   Ring assembly (gap G2 of the comment above, in part).  Model: model/Rings.v -- NewOutRec/AddLocalMinPoly, AddOutPt,
+   AddLocalMaxPoly, JoinOutrecPaths, SwapOutrecs as pure functions on (OutRec list, Active -> OutRec map); an OutRec's
+   circular OutPt list is the list of its points from op_back to op_front.  Tie: exact correspondence with the real
+   functions on synthetic Actives for random valid operation sequences under ASan+UBSan (checks/C01.py ring_tie).
+   ------------------------------------------------------------------------------------------------------------ *)
+Module R := Clip.model.Rings.
+Module RP := Clip.proofs.Rings.
+
+(* AddOutPt changes exactly the edge's own ring, at exactly one end (front edge: after op_front, else before op_back),
+   by at most the given point (a point equal to that end is not repeated) *)
+Theorem C01_ring_extend : forall s e p s', R.add_out_pt s e p = Some s' ->
+  exists i o D, R.eo s e = Some i /\ nth_error (R.recs s) i = Some o /\ R.pts o = Some D /\
+    R.eo s' = R.eo s /\
+    R.recs s' = R.set_nth (R.recs s) i (R.mkO (Some (R.push (R.is_edge (R.fe o) e) D p)) (R.fe o) (R.be o)).
+Proof. exact RP.add_out_pt_spec. Qed.
+Print Assumptions C01_ring_extend.
+
+(* JoinOutrecPaths(ea, eb) splices eb's ring end to end onto ea's (after it when ea is the front edge, before it
+   otherwise), empties eb's OutRec and touches no other ring *)
+Theorem C01_ring_join : forall s ea eb s', R.join s ea eb = Some s' ->
+  exists ia ib oa ob Da Db,
+    R.eo s ea = Some ia /\ R.eo s eb = Some ib /\ nth_error (R.recs s) ia = Some oa /\ nth_error (R.recs s) ib = Some ob /\
+    R.pts oa = Some Da /\ R.pts ob = Some Db /\
+    R.recs s' = R.set_nth (R.set_nth (R.recs s) ia
+                (if R.is_edge (R.fe oa) ea then R.mkO (Some (Da ++ Db)) (R.fe ob) (R.be oa) else R.mkO (Some (Db ++ Da)) (R.fe oa) (R.be ob)))
+              ib (R.mkO None None None).
+Proof. exact RP.join_spec. Qed.
+Print Assumptions C01_ring_join.
+
+(* over ANY sequence of these operations that the engine can execute (no null dereference, succeeded_ not cleared):
+   no solution point is invented, none is lost, none is duplicated beyond the points handed over *)
+Theorem C01_ring_points : forall ops s s', R.run s ops = Some s' ->
+  (forall q, In q (R.all_pts s') -> In q (R.all_pts s) \/ In q (flat_map RP.op_point ops)) /\
+  (forall q, In q (R.all_pts s) -> In q (R.all_pts s')) /\
+  (length (R.all_pts s') <= length (R.all_pts s) + length (flat_map RP.op_point ops))%nat.
+Proof. exact RP.run_points. Qed.
+Print Assumptions C01_ring_points.
